@@ -41,6 +41,11 @@ func (s *fullStack) apply() {
 	if s.dirty {
 		s.w.Health().VerifShift(40 * time.Second) // keep the health breaker out of this property's way
 		s.w.ForceHealth()
+		var names []string
+		for _, b := range s.backs {
+			names = append(names, b.Name)
+		}
+		s.w.CloseEngineBreakers(names...)
 		s.dirty = false
 	}
 }
